@@ -3,6 +3,7 @@ package charset
 import (
 	"bytes"
 	"encoding/xml"
+	"io"
 	"strings"
 	"unicode/utf8"
 
@@ -149,6 +150,11 @@ func FromXML(content []byte) string {
 func fromXML(content []byte) string {
 	content = trimLWS(content)
 	dec := xml.NewDecoder(bytes.NewReader(content))
+	// Without a CharsetReader the decoder refuses any declared encoding other
+	// than UTF-8. Only the declaration is read here, nothing is decoded.
+	dec.CharsetReader = func(_ string, input io.Reader) (io.Reader, error) {
+		return input, nil
+	}
 	rawT, err := dec.RawToken()
 	if err != nil {
 		return ""
